@@ -1122,9 +1122,15 @@ func (ig Integration) processLog(rows [][]any, lwc *logWithCtx, pgmut *sync.Mute
 				}
 				row[i] = d
 			case !def.BlockData.Empty():
-				d := lwc.get(def.BlockData.Name)
-				if err := def.BlockData.Accept(lwc.ctx, pgmut, pg, d, &frs); err != nil {
-					return nil, fmt.Errorf("checking filter: %w", err)
+				var d any
+				switch {
+				case def.BlockData.Name == "abi_idx":
+					d = 0
+				default:
+					d = lwc.get(def.BlockData.Name)
+					if err := def.BlockData.Accept(lwc.ctx, pgmut, pg, d, &frs); err != nil {
+						return nil, fmt.Errorf("checking filter: %w", err)
+					}
 				}
 				row[i] = d
 			default:
